@@ -167,7 +167,7 @@ def main():
     json.dump(m, open(os.path.join(V, "MANIFEST.json"), "w"), indent=1)
 
 NA = {}
-HOOK_COMMITS = ["6cda707"]
+HOOK_COMMITS = ["6cda707", "3fe4d13"]
 
 if __name__ == "__main__":
     main()
